@@ -150,7 +150,7 @@ func c14Program(c *wk.Case, allowGo bool) (src, kind string, watchdog time.Durat
 	case r < 6:
 		g := gen.New(c.Rng, gen.ProfControl)
 		prog := g.OrderProgram()
-		if !allowGo && g.Feat["stmt-go"] > 0 {
+		if !allowGo && (g.Feat["stmt-go"] > 0 || g.Feat["stmt-go-panicking-host"] > 0) {
 			return "", "", 0, false
 		}
 		return gen.Source(prog), "generated-expressions", 4 * time.Second, true
